@@ -73,19 +73,8 @@ C13_FNS = ["rumqttd::segments::CommitLog::{new, append, apply_retention, readv, 
 PROPS["C13"] = {
     "title": "Commit log reads return exactly the retained suffix; retention is bounded",
     "families": [
-        {"name": "append_step", "filters": ["c13::step::append_"], "tier": "quick", "timeout": 900, "jobs": 3, "mem_gb": 18,
-         "min_harnesses": 9,
-         "kind": "I (one inductive step over INV pre-states built with the real Segment::with_offset + push)",
-         "bounds": "segment layout concrete per instance (1-3 segments, 0-2 entries each, max_mem_segments 1-3, "
-                   "max_segment_size 1024); ALL entry sizes symbolic u16 under INV; appended size symbolic u16",
-         "asserts": "append returns the log tail; rotates iff the active segment was full; evicts exactly the whole oldest "
-                    "segment iff the segment limit is reached; never more than max_mem_segments; absolute offsets stay "
-                    "contiguous; the new entry is readable right behind the previous tail and reports caught-up",
-         "encodes": C13_FNS, "stubs": [TRACING_STUB, BYTES_MODEL],
-         "assumes": ["INV (see harness/kani/src/c13/mod.rs) on the pre-state; it is re-established by the layout post-condition"],
-         "outside": ["more than 3 retained segments / 2 entries per segment in a pre-state shape", "the DataLog wrapper (HashMap)"]},
         {"name": "read_step", "filters": ["c13::step::read_"], "tier": "quick", "timeout": 900, "jobs": 3, "mem_gb": 18,
-         "min_harnesses": 11,
+         "min_harnesses": 11, "jobs": 4,
          "kind": "I (one read from an INV state) against a closed-form reference",
          "bounds": "layout concrete per instance; cursor segment concrete per instance (every live segment, and a stale one "
                    "below head); cursor offset SYMBOLIC over every value the log can have issued for that segment; "
@@ -110,3 +99,75 @@ PROPS["C13"] = {
          "encodes": C13_FNS, "stubs": [TRACING_STUB, BYTES_MODEL]},
     ],
 }
+
+# ---------------------------------------------------------------------------
+# client protocol state machine: harnesses shared by C02 / C07 / C10 / C11 / C18; every assertion is
+# labelled with the property it belongs to, a check only looks at its own labels (+ unlabelled panics)
+SM_STUBS = [
+    BYTES_MODEL,
+    "std::time::Instant::now -> fixed instant (no clause depends on elapsed time)",
+    "fixedbitset::FixedBitSet::with_capacity -> scaled set of min(bits,128) bits built with the real new()+grow(); "
+    "the sizes MqttState::new asks for (max_inflight+1 and 65536) are asserted by the bitset_sizes harness; "
+    "inbound QoS2 ids are drawn from 0..4 and 0xFFFF",
+    "VecDeque::with_capacity(100) (the event queue) -> capacity 4, VecDeque::grow -> failed assertion (a step never "
+    "queues more than 3 events); Vec::reserve on a non-empty Vec -> assertion that no growth is needed: capacity is "
+    "never semantics, and symbolic-size reallocations make CBMC run out of memory in array post-processing",
+]
+SM_V4_FNS = ["rumqttc::MqttState::{new, handle_outgoing_packet, handle_incoming_packet, clean, inflight}",
+             "rumqttc::state::MqttState::{outgoing_publish, outgoing_subscribe, outgoing_unsubscribe, outgoing_ping, outgoing_pubrel, "
+             "outgoing_puback, outgoing_pubrec, handle_incoming_puback, handle_incoming_pubrec, handle_incoming_pubrel, "
+             "handle_incoming_pubcomp, handle_incoming_publish, handle_incoming_pingresp, check_collision, save_pubrel, next_pkid}"]
+SM_INV = ("pre-state = ARBITRARY state under INV (slot i holds a QoS>0 publish with pkid i; slot 0 / release bit 0 empty; "
+          "inflight == #held publishes + #pending releases <= max; last_pkid < max; last_puback <= max; a parked collision "
+          "has 1 <= pkid <= max and its id is held; collision_ping_count <= 1); INV is re-asserted after every step, so the "
+          "step harnesses are inductive over histories of any length")
+SM_ADMISSION = ("user requests are taken only if inflight < max and no collision is pending - the guard of "
+                "rumqttc::EventLoop::select (async, not executable by the solver; its text is pinned by a syntactic guard)")
+
+def sm_families(prop):
+    return [
+        {"name": "v4_steps", "filters": ["sm::v4::out_", "sm::v4::in_", "sm::v4::clean_replay_"], "tier": "quick",
+         "timeout": 900, "jobs": 6, "mem_gb": 16, "min_harnesses": 18,
+         "kind": "I (one inductive step from an arbitrary INV state), one harness per operation kind and inflight limit",
+         "bounds": "max_inflight concrete per instance in {1,2,3}; held ids, their QoS and identity, pending releases, "
+                   "allocator position, last acknowledged id, parked collision, ping flag, manual_acks: all symbolic; "
+                   "broker packet ids symbolic over {0..=max+1, 0xFFFF}; unwind 6-8",
+         "asserts": "INV preserved; C02 nothing held is dropped, released publishes are recorded, clean() returns every "
+                    "held publish once with original id/content before any release and a session-present replay "
+                    "re-establishes the state; C07 ids in 1..=max, no overwrite of an unacknowledged slot, window "
+                    "accounting, collision only while its id is held; C10 received packet surfaced first exactly once, "
+                    "PUBACK/PUBREC/PUBCOMP replies, manual_acks, unsolicited acks -> Err without touching the state, one "
+                    "announcement per write; C11 retransmission order = rotation behind the last acknowledged id; C18 "
+                    "ping flag protocol",
+         "encodes": SM_V4_FNS, "stubs": SM_STUBS, "assumes": [SM_INV, SM_ADMISSION],
+         "outside": ["EventLoop::poll/select, Network::readb, timers (async/tokio)", "max_inflight > 3",
+                     "pre-states outside INV (e.g. ids reused while their QoS2 release is pending are covered only up to "
+                     "the PUBREC step, see DESIGN)"]},
+        {"name": "bitset_sizes", "filters": ["sm::v4::bitset_sizes"], "tier": "quick", "timeout": 300, "jobs": 6,
+         "kind": "stub contract witness", "bounds": "max_inflight = 3",
+         "asserts": "MqttState::new requests max+1 bits for outgoing_rel and 65536 bits for incoming_pub",
+         "encodes": ["rumqttc::MqttState::new"], "stubs": SM_STUBS},
+    ]
+
+SM_GUARDS = [
+    {"file": "rumqttc/src/eventloop.rs", "what": "admission guard of EventLoop::select",
+     "must_contain": ["let inflight_full = self.state.inflight >= self.mqtt_options.inflight;",
+                      "let collision = self.state.collision.is_some();",
+                      "if !self.pending.is_empty() || (!inflight_full && !collision) => match o {"]},
+    {"file": "rumqttc/src/eventloop.rs", "what": "EventLoop::clean carries state.clean() over first, then the drained channel",
+     "must_contain": ["self.pending.extend(self.state.clean());",
+                      "self.pending.extend(requests_in_channel);"]},
+    {"file": "rumqttc/src/eventloop.rs", "what": "pending dropped when the broker reports no session; errors move state to pending",
+     "must_contain": ["if !connack.session_present { self.pending.clear(); }",
+                      "Err(e) => { // MQTT requires that packets pending acknowledgement should be republished on session resume. // Move pending messages from state to eventloop. self.clean(); Err(e) }"]},
+]
+
+SM_TITLES = {
+    "C02": "Client never loses an accepted QoS1/2 publish across acks and reconnects",
+    "C07": "Client packet-id uniqueness and inflight-window flow control",
+    "C10": "Client answers inbound QoS flows correctly and reports packets in order",
+    "C11": "On session resume the client retransmits first and in original order",
+    "C18": "Client keep-alive pings on time and detects a silent broker, no false alarms",
+}
+for _p, _t in SM_TITLES.items():
+    PROPS[_p] = {"title": _t, "families": sm_families(_p), "guards": SM_GUARDS}
